@@ -5,20 +5,36 @@ package main
 //   importer/*.go      default extensions; the file-name expressions of both importers
 //   risor_config.go    the extension list WithLocalImporter configures
 //   vm/vm.go           MaxFrameDepth; the module-name expressions of op.FromImport;
-//                      the keys of the vm.modules cache in importModule
+//                      the keys of the vm.modules cache in importModule; the steps of
+//                      importModule in source order (cache lookup, cyclic-import guard over
+//                      vm.importing, importer.Import, push, eval, store), the guard's condition and
+//                      what it returns, every write of vm.importing in the file, and the statements of
+//                      the deferred frame restore (pop of vm.importing, resumeFrame, dropping what the
+//                      module's code left above the importer's stack pointer)
 //   importer/*.go      where the code object an importer hands out comes from (every
 //                      assignment to `code` in Import: the by-name cache or a fresh
 //                      parseAndCompile — the model's `LocalImporter`, `Env.reuse = none`)
 
 import (
+	"bytes"
 	"fmt"
 	"go/ast"
 	"go/parser"
+	"go/printer"
 	"go/token"
 	"go/types"
 	"strconv"
 	"strings"
 )
+
+// source text of a statement on one line (runs of white space collapsed)
+func c14StmtText(n ast.Node) string {
+	var b bytes.Buffer
+	if err := printer.Fprint(&b, token.NewFileSet(), n); err != nil {
+		panic(err)
+	}
+	return strings.Join(strings.Fields(b.String()), " ")
+}
 
 func c14Parse(repo, file string) *ast.File {
 	fset := token.NewFileSet()
@@ -252,6 +268,84 @@ func init() {
 			}
 			return true
 		})
+		// importModule after the repairs: its steps in source order, the cyclic-import guard, the
+		// deferred frame restore; every write of vm.importing in vm/vm.go
+		var steps, guard, deferred, importingWrites []string
+		ast.Inspect(im.Body, func(n ast.Node) bool {
+			switch x := n.(type) {
+			case *ast.RangeStmt:
+				if types.ExprString(x.X) == "vm.importing" {
+					steps = append(steps, "cyclic-guard")
+					guard = append(guard, "range "+types.ExprString(x.X))
+					ast.Inspect(x.Body, func(m ast.Node) bool {
+						switch y := m.(type) {
+						case *ast.IfStmt:
+							guard = append(guard, "if "+types.ExprString(y.Cond))
+						case *ast.ReturnStmt:
+							guard = append(guard, c14StmtText(y))
+						}
+						return true
+					})
+					return false
+				}
+			case *ast.DeferStmt:
+				if fl, ok := x.Call.Fun.(*ast.FuncLit); ok {
+					isRestore := false
+					for _, st := range fl.Body.List {
+						if strings.Contains(c14StmtText(st), "resumeFrame") {
+							isRestore = true
+						}
+					}
+					if isRestore {
+						for _, st := range fl.Body.List {
+							deferred = append(deferred, c14StmtText(st))
+						}
+						return false
+					}
+				} else if strings.Contains(types.ExprString(x.Call.Fun), "resumeFrame") {
+					deferred = append(deferred, c14StmtText(x.Call))
+				}
+			case *ast.AssignStmt:
+				for _, r := range x.Rhs {
+					if _, ok := isModules(r); ok {
+						steps = append(steps, "lookup")
+					}
+				}
+				for _, l := range x.Lhs {
+					if _, ok := isModules(l); ok {
+						steps = append(steps, "store")
+					}
+					if types.ExprString(l) == "vm.importing" && len(x.Rhs) == 1 {
+						if c, ok := x.Rhs[0].(*ast.CallExpr); ok && types.ExprString(c.Fun) == "append" {
+							steps = append(steps, "push")
+						}
+					}
+				}
+			case *ast.CallExpr:
+				switch types.ExprString(x.Fun) {
+				case "vm.importer.Import":
+					steps = append(steps, "importer.Import")
+				case "vm.eval":
+					steps = append(steps, "eval")
+				}
+			}
+			return true
+		})
+		ast.Inspect(vf, func(n ast.Node) bool {
+			switch x := n.(type) {
+			case *ast.AssignStmt:
+				for _, l := range x.Lhs {
+					if se, ok := l.(*ast.SelectorExpr); ok && se.Sel.Name == "importing" {
+						importingWrites = append(importingWrites, c14StmtText(x))
+					}
+				}
+			case *ast.KeyValueExpr:
+				if id, ok := x.Key.(*ast.Ident); ok && id.Name == "importing" {
+					importingWrites = append(importingWrites, "literal: "+c14StmtText(x))
+				}
+			}
+			return true
+		})
 		// op.FromImport: the names handed to importModule inside the eval switch
 		var fromArgs []string
 		ast.Inspect(c14Func(vf, "eval"), func(n ast.Node) bool {
@@ -287,6 +381,14 @@ func init() {
 		s += "def importerArgs : List String := " + c14_leanStrList(importArgs) + "\n"
 		s += "def fromImportNames : List String := " + c14_leanStrList(fromArgs) + "\n"
 		s += "def compileImportName : String := " + c14_leanStr(moduleNameExpr) + "\n"
+		s += "/-- the steps of vm.importModule in source order -/\n"
+		s += "def importModuleSteps : List String := " + c14_leanStrList(steps) + "\n"
+		s += "/-- the loop over vm.importing in vm.importModule: range expression, condition, what it returns -/\n"
+		s += "def cyclicImportGuard : List String := " + c14_leanStrList(guard) + "\n"
+		s += "/-- the statements of the deferred frame restore of vm.importModule, in order -/\n"
+		s += "def importDeferredRestore : List String := " + c14_leanStrList(deferred) + "\n"
+		s += "/-- every assignment to a field `importing` (and every struct literal that sets it) in vm/vm.go -/\n"
+		s += "def importingWrites : List String := " + c14_leanStrList(importingWrites) + "\n"
 		s += "/-- every expression assigned to `code` in LocalImporter.Import / FSImporter.Import, in source order -/\n"
 		s += "def localImporterCodeSources : List String := " + c14_leanStrList(localCodeSources) + "\n"
 		s += "def fsImporterCodeSources : List String := " + c14_leanStrList(fsCodeSources) + "\n"
